@@ -189,6 +189,8 @@ Example C17_ex_worst_block :
   | inr st => length (b_out st) = 416%nat | inl _ => False end.
 Proof. exact worst_block_bytes. Qed.
 Example C17_ex_restart_clamped :
-  exists u i, snd (initial_setup 8 8 1 1 8 false [{| c_h := 1; c_v := 1 |}]) = inr u /\
-              snd (per_scan_setup 8 8 false u 1 [0] 100000 0) = inr i /\ i_restart_interval i = 65535.
+  match snd (initial_setup 8 8 1 1 8 false [{| c_h := 1; c_v := 1 |}]) with
+  | inr u => match snd (per_scan_setup 8 8 false u 1 [0] 100000 0) with
+             | inr i => i_restart_interval i = 65535 | inl _ => False end
+  | inl _ => False end.
 Proof. exact restart_interval_clamped. Qed.
